@@ -21,13 +21,13 @@ theorem foldr_getPath (comps : List Bytes) (hne : comps ≠ []) :
       rw [this]
       simp [joinSlash]
 
-theorem goodName_props {c : Bytes} (h : GoodName c) :
+theorem imgName_props {c : Bytes} (h : ImgName c) :
     (c = [] || c.contains SL || c = [46] || c = [46, 46]) = false := by
-  obtain ⟨h1, h2, h3, h4, _, _⟩ := h
+  obtain ⟨h1, h2, h3, h4, _⟩ := h
   have : c.contains SL = false := by simpa using h4
   simp [h1, h2, h3, h4]
 
-theorem canon_abs_join (comps : List Bytes) (hne : comps ≠ []) (h : ∀ c ∈ comps, GoodName c) :
+theorem canon_abs_join_img (comps : List Bytes) (hne : comps ≠ []) (h : ∀ c ∈ comps, ImgName c) :
     canonicalize (SL :: joinSlash comps) = some (joinSlash comps) := by
   rw [Sqfs.C18.canon_eq_spec]
   unfold Sqfs.Path.specCanon
@@ -53,7 +53,11 @@ theorem canon_abs_join (comps : List Bytes) (hne : comps ≠ []) (h : ∀ c ∈ 
     simp [Sqfs.Path.keep, Sqfs.Path.isNE_iff.2 h1, Sqfs.Path.notDot_iff.2 h2]
   rw [hk]
 
-theorem nodePath_good (comps : List Bytes) (h : ∀ c ∈ comps, GoodName c) :
+theorem canon_abs_join (comps : List Bytes) (hne : comps ≠ []) (h : ∀ c ∈ comps, GoodName c) :
+    canonicalize (SL :: joinSlash comps) = some (joinSlash comps) :=
+  canon_abs_join_img comps hne (fun c hc => (h c hc).img)
+
+theorem nodePath_img (comps : List Bytes) (h : ∀ c ∈ comps, ImgName c) :
     nodePath comps = .ok (joinSlash comps) := by
   unfold nodePath getPath
   by_cases hne : comps = []
@@ -63,10 +67,14 @@ theorem nodePath_good (comps : List Bytes) (h : ∀ c ∈ comps, GoodName c) :
   · have hany : comps.any (fun c => c = [] || c.contains SL || c = [46] || c = [46, 46]) = false := by
       rw [List.any_eq_false]
       intro c hc
-      simp only [goodName_props (h c hc)]
+      simp only [imgName_props (h c hc)]
       decide
     simp only [hne, if_false, hany, Bool.false_eq_true]
-    rw [foldr_getPath comps hne, canon_abs_join comps hne h]
+    rw [foldr_getPath comps hne, canon_abs_join_img comps hne h]
+
+theorem nodePath_good (comps : List Bytes) (h : ∀ c ∈ comps, GoodName c) :
+    nodePath comps = .ok (joinSlash comps) :=
+  nodePath_img comps (fun c hc => (h c hc).img)
 
 theorem joinSlash_ne_nil (comps : List Bytes) (hne : comps ≠ []) (h : ∀ c ∈ comps, GoodName c) :
     joinSlash comps ≠ [] := by
